@@ -16,6 +16,10 @@ import ParryModel.C08.Theorems10
 import ParryModel.C08.Theorems11
 import ParryModel.C08.Theorems12
 import ParryModel.C08.Theorems13
+import ParryModel.C08.Theorems14
+import ParryModel.C08.Theorems15
+import ParryModel.C08.Theorems16
+import ParryModel.C08.Theorems17
 /-!
 # C08 property theorems: the QBVH stays valid under any history
 
